@@ -176,6 +176,23 @@ func (g *lexGen) expr(depth int) lexspec.Rx {
 			op += "?"
 		}
 		return lexspec.Card{X: g.expr(depth - 1), Op: op}
+	case 5:
+		// a quantified group of several terms whose first or last term is a
+		// quantified group itself: ('-' ('a'|'b')+)?, (('a'|'b')* 'c')*, the
+		// skip and loop edges of the two meet at one end of the group
+		var inner lexspec.Rx = g.atom()
+		if r.Chance(2, 3) {
+			inner = lexspec.Alt{Alts: []lexspec.Rx{g.atom(), g.atom()}}
+		}
+		in := lexspec.Card{X: inner, Op: []string{"*", "+", "?"}[r.Intn(3)]}
+		parts := []lexspec.Rx{g.atom(), in}
+		if r.Chance(1, 2) {
+			parts = []lexspec.Rx{in, g.atom()}
+		}
+		if r.Chance(1, 3) {
+			parts = append(parts, g.atom())
+		}
+		return lexspec.Card{X: lexspec.Cat{Parts: parts}, Op: []string{"?", "*", "+"}[r.Intn(3)]}
 	default:
 		return g.atom()
 	}
@@ -237,9 +254,27 @@ func RandomLexer(r *rng.R, o LexOpts) (*lexspec.Spec, Alphabet) {
 	mkRules := func(inMode bool, modeName string) []lexspec.Rule {
 		var rules []lexspec.Rule
 		n := r.Range(2, o.MaxRules)
+		// an "operator table" now and then: many rules that are one- and
+		// two-character literals over a few characters (many NFA states with
+		// two-digit numbers, many subsets that differ in one state)
+		opTable := r.Chance(1, 5)
+		if opTable {
+			n = r.Range(8, 14)
+		}
 		var emitted []string
 		for i := 0; i < n; i++ {
 			x := g.expr(r.Range(0, 2))
+			if opTable && i < n-2 {
+				k := 4
+				if len(g.a) < k {
+					k = len(g.a)
+				}
+				lit := []rune{g.a[r.Intn(k)], g.a[r.Intn(k)]}
+				if r.Chance(1, 5) {
+					lit = lit[:1]
+				}
+				x = lexspec.Lit{S: lit}
+			}
 			// overlap on purpose: sometimes reuse a prefix of an earlier rule
 			if i > 0 && r.Chance(1, 4) {
 				x = lexspec.Cat{Parts: []lexspec.Rx{rules[r.Intn(len(rules))].Rx, g.atom()}}
@@ -324,6 +359,19 @@ func RandomLexer(r *rng.R, o LexOpts) (*lexspec.Spec, Alphabet) {
 				as[0], as[1] = as[1], as[0]
 			}
 			ru := lexspec.Rule{Kind: lexspec.RToken, Name: newTok(), Rx: x, Actions: as}
+			at := r.Intn(len(rules) + 1)
+			rules = append(rules[:at], append([]lexspec.Rule{ru}, rules[at:]...)...)
+		}
+		if o.Frags && !o.NoNullable && o.NullablePct > 0 && r.Chance(1, 4) {
+			// an accumulating fragment that can match the empty string (the
+			// usual body of a string literal: @frag (~["\\] | '\\' .)* ): after
+			// it has accumulated some text the machine is back in the start state
+			// with that text pending, whatever comes next
+			body := g.atom()
+			if r.Chance(1, 2) {
+				body = lexspec.Alt{Alts: []lexspec.Rx{g.atom(), lexspec.Cat{Parts: []lexspec.Rx{lexspec.Lit{S: []rune{g.pick()}}, g.atom()}}}}
+			}
+			ru := lexspec.Rule{Kind: lexspec.RFrag, Rx: lexspec.Card{X: body, Op: "*"}}
 			at := r.Intn(len(rules) + 1)
 			rules = append(rules[:at], append([]lexspec.Rule{ru}, rules[at:]...)...)
 		}
